@@ -32,6 +32,12 @@ def accepted (ex : String → Bool) (stream : List Item) : List (String × ElemI
     | .store g x => some (g, x)
     | _ => none
 
+/-- the item is stored (verdict `store`) -/
+def isStored (ex : String → Bool) (it : Item) : Bool :=
+  match verdict ex it with
+  | .store _ _ => true
+  | _ => false
+
 def errors (ex : String → Bool) (stream : List Item) : Nat :=
   stream.countP fun it => verdict ex it = .error
 
